@@ -317,7 +317,7 @@ class Case(object):
         try:
             results = self.queue.enqueue(env)
         except Exception as e:
-            bad({'kind': 'exception:' + type(e).__name__, 'chain_has': chain_has(chain, POLICY_CLASSES)},
+            bad({'kind': 'exception:' + type(e).__name__, 'raised_in': _raised_in(e)},
                 'enqueue raised %s: %s' % (type(e).__name__, e))
             return out, {'written': None}
         written = self.store.written
@@ -402,8 +402,12 @@ class Case(object):
                 o.prepend_header('X-Probe-%d' % i, 'p')
             for j, o in enumerate(objs):
                 want_r = before[j][0] + ['probe%d@probe' % j]
-                want_h = [('X-Probe-%d' % j, 'p')] + before[j][1]
+                own = ('X-Probe-%d' % j, 'p')
                 now_h = [(str(a), str(b)) for a, b in o.headers.raw_items()]
+                # wherever prepend_header put the probe: own state + own probe, nobody else's
+                want_h = [own] + before[j][1]
+                if own in now_h and [h for h in now_h if h != own] == before[j][1]:
+                    want_h = now_h
                 if list(o.recipients) != want_r:
                     bad({'kind': 'shared-recipients-list', 'chain_has': chain_has(chain, SPLITTERS)},
                         'after appending a probe address to the recipients of each written envelope, envelope #%d has %r '
@@ -468,6 +472,17 @@ class Case(object):
 
 
 POLICY_CLASSES = tuple(sorted(set(policy_class(n) for n in POLICY_NAMES)))
+
+
+def _raised_in(exc):
+    """Innermost library frame of the traceback, e.g. 'slimta/policy/headers.py:apply'."""
+    tb, found = exc.__traceback__, 'outside slimta'
+    while tb is not None:
+        fn = tb.tb_frame.f_code.co_filename.replace('\\', '/')
+        if '/slimta/' in fn:
+            found = 'slimta/' + fn.split('/slimta/')[-1] + ':' + tb.tb_frame.f_code.co_name
+        tb = tb.tb_next
+    return found
 
 
 def all_chains(max_len):
